@@ -826,6 +826,8 @@ class Cx:
             return tuple(v.args_)
         if v is CE.UNKNOWN:
             raise CxError('attribute of an unknown constant')
+        if isinstance(v, slice) and name in ('start', 'stop', 'step'):
+            return getattr(v, name)
         return BoundBuiltin(v, name)
 
     def class_attr(self, info, name):
@@ -1112,6 +1114,14 @@ class Cx:
                 tgt[slice(lo, hi, stp)] = new
                 return
             idx = self.ev(t.slice, fr)
+            if isinstance(idx, slice):
+                tgt = base.items if isinstance(base, Seq) else base
+                if not isinstance(tgt, list):
+                    raise PyRaise('TypeError', ('slice store',))
+                new = self.to_byte_items(v) if isinstance(base, Seq) \
+                    else self.items(v)
+                tgt[idx] = new
+                return
             if isinstance(base, dict):
                 if is_sym(idx):
                     raise CxError('symbolic dictionary key')
@@ -1376,6 +1386,16 @@ class Cx:
     def index(self, base, idx):
         if isinstance(idx, bool):
             idx = int(idx)
+        if isinstance(idx, slice):
+            for b in (idx.start, idx.stop, idx.step):
+                if isinstance(b, BV):
+                    raise CxError('slice bound depends on symbolic content')
+            k = self.kind_of(base)
+            if k is None:
+                raise PyRaise('TypeError', ('not subscriptable',))
+            if not isinstance(base, Seq):
+                return base[idx]
+            return self.mk(k, base.items[idx])
         if isinstance(idx, BV):
             if isinstance(base, (list, tuple, bytes, str)) or (
                     isinstance(base, Seq)):
@@ -1747,6 +1767,11 @@ def call_ext(cx, name, args, kw):
                 return kw['default']
             raise PyRaise('ValueError', ('empty sequence',))
         return min(its) if n == 'min' else max(its)
+    if n == 'slice':
+        for a in args:
+            if isinstance(a, BV):
+                raise CxError('slice bound depends on symbolic content')
+        return slice(*args)
     if n == 'sum':
         its = cx.items(args[0])
         acc = args[1] if len(args) > 1 else 0
